@@ -92,3 +92,12 @@ _p(
     assumptions=[A7, "torch primitive semantics as listed in pyvc/bitmodel.py (assumed; validated at run time, bounded)", "inputs: every non-NaN float32 bit pattern (|x| < 2^126 when E = 8); formats enumerated: quick 6 formats, thorough all 168 (E 2..8, M 0..23)", "float64 / bfloat16 / float16 inputs: proved equal to the float32 path composed with the conversions (element model), for rank 1 and rank 2 shapes with symbolic dims; 'idempotent' is the consequence of 'representable' and 'representable input unchanged' (both for all inputs)"],
     explanation="For each format the result element of the real quantise body is an SMT term over the input's float32 pattern; representable, sign, saturation, neighbour (no representable value strictly between), nearest (exact 280-bit scaled-integer distances; slack only below 2^emin), fix-point, odd symmetry, monotonicity (two variables), dtype/shape/frame and the three range properties are discharged by z3 for ALL inputs.",
 )
+
+_p(
+    "C14",
+    level="proof",
+    technique="contract-based deductive verification, bit-precise: the random draw is a universally quantified bit-vector; probabilities are COUNTED from a proved threshold form",
+    trusted_base=["pyvc (self-written AST->SMT VC generator over the real source)"] + BITP,
+    assumptions=[A7, "torch.randint(0, 2^s, shape) yields per-element independent uniform integers (assumed); the check proves it is called once with size == x.shape and range [0, 2^s)", "inputs: every finite float32 bit pattern and every draw R in [0, 2^srbits); formats E 2..7, M 0..10, srbits 1..12 and default: quick 10 triples, thorough all 858"],
+    explanation="For all x and all R: the result is representable, one of the two neighbours of the clamped input, never moves a representable input; it rounds away from zero exactly when R >= 2^s - rnd(d/2^(D-s)) where d/2^D is the fractional position between the neighbours (pattern-space lemmas about the value set, normal range; RNE-scaled position with error <= 2^-(D+1) below 2^emin); counting lemmas (LIA) turn the threshold into P(away) = rnd(d/2^(D-s))/2^s, exact when s = D and within 2^-(s+1) otherwise.",
+)
